@@ -272,6 +272,23 @@ def apply_activation(v, f, mem, accel):
         table = np.where(table >= (1 << 31), table - (1 << 32), table)
         idx = (v + 128) if a["min"] < 0 else v
         return table[np.clip(idx, 0, 255)]
+    if a["lut_index"] is not None and f["ofm"]["bits"] == 16 and f["ifm"]["bits"] == 16:
+        # 16-bit table: 512 entries of (base: low 16 bits, slope: high 16 bits), 2 KB = eight 256-byte slots.  The upper nine bits of the (offset binary) value select the entry,
+        # the lower seven interpolate: base + ((slope * fraction + 64) >> 7) - the lookup of the reference kernels (LUTLookup).  H-model adopted by the bring-up rule (DESIGN 8.2).
+        base_addr = hw.lut_start_bank(accel, True) * 1024 + a["lut_index"] * 256
+        sh = np.frombuffer(mem[csdec.SHRAM_REGION], np.uint8)
+        if base_addr + 2048 > len(sh):
+            raise SimError("16-bit table at SHRAM offset %d runs past the end of SHRAM" % base_addr)
+        raw = sh[base_addr: base_addr + 2048].astype(I64).reshape(512, 4)
+        lo16 = raw[:, 0] | (raw[:, 1] << 8)
+        hi16 = raw[:, 2] | (raw[:, 3] << 8)
+        tbase = np.where(lo16 >= 0x8000, lo16 - 0x10000, lo16)
+        tslope = np.where(hi16 >= 0x8000, hi16 - 0x10000, hi16)
+        if not f["ofm"]["signed"]:
+            raise Unmodelled("16-bit table with an unsigned OFM")
+        idx = (v + 32768) >> 7
+        frac = v & 0x7F
+        return np.clip(tbase[idx] + ((tslope[idx] * frac + 64) >> 7), -32768, 32767)
     if a["lut_index"] is not None:
         if f["ofm"]["bits"] != 8 or f["ifm"]["bits"] not in (8, 32):
             raise Unmodelled("16/32-bit lookup table")
